@@ -31,10 +31,13 @@ def stale_state_history(rng):
         return c
     alias = rng.choice(["send", "w"])
     na = rng.randrange(1, 4)
-    fault = rng.choice(["discard", "handler", "interrupt"])
+    fault = rng.choice(["discard", "handler", "interrupt", "disabled-discard"])
     a_stmts = [out(alias, i) for i in range(na)]
     if fault == "discard":
         a_stmts.append({"k": "discard"})
+    elif fault == "disabled-discard":
+        # recording is switched off on the way (a feature flag refresh), then the operation discards: nothing may be saved
+        a_stmts += [{"k": "enable", "b": False}, {"k": "discard"}, {"k": "enable", "b": True}]
     elif fault == "handler":
         a_stmts.append(out(alias, 9, handler="raises"))
     term_a = {"k": "interrupt"} if fault == "interrupt" else {"k": "ret", "e": {"lit": {"t": "int", "v": 1}}}
